@@ -700,6 +700,12 @@ class JSONPatch:
                 raise JSONPatchError(f"{err} ({op.name}:{i})") from err
             except (JSONPointerError, JSONPatchError) as err:
                 raise JSONPatchError(f"{err} ({op.name}:{i})") from err
+            except json.JSONDecodeError as err:
+                # An earlier operation made the root a string, which the pointer
+                # machinery then tried to load as a JSON document.
+                raise JSONPatchError(
+                    f"can't apply to a string ({op.name}:{i})"
+                ) from err
 
         return _data
 
